@@ -100,7 +100,7 @@ def unmappable_scenarios():
 
 def run(chk):
     cfg = pv.repo_config()
-    proof_ok, driver_ok, detail = pv.proof_stage(chk, ["PV.Props.C07"])
+    proof_ok, driver_ok, detail = pv.proof_stage(chk, ["PV.Props.C07", "PV.Props.C07sysv"])
     if any(d.startswith("extractor: ") and ("pshm" in d or "psemaphore" in d or "ipc" in d or "perror" in d or "psysclose" in d) for d in detail):
         proof_ok = False
     exe = ipc.build(cfg)
@@ -140,15 +140,17 @@ def run(chk):
     for (n, it) in (((4, 20000), (8, 8000), (16, 3000)) if thorough else ((3, 3000), (6, 1000))):
         ipc.run_stress(chk, exe, ["stress-shm", n, it], "C07 lock stress")
     # System V variant (pshm-sysv.c + psemaphore-sysv.c linked instead of the posix files): API-level histories against the spec column
-    ipc_sysv.run_c07(chk, cfg, BASIC)
+    Rs = ipc_sysv.run_c07(chk, cfg, BASIC)
+    if getattr(Rs, "new_violations", 0):
+        R.found = True
     R.conclude(BASIC + races[-60:] + crash + eintr + races[:-60] + rnd, "C07 shared memory")
     chk.cov["harness_leftovers_in_dev_shm"] = fam.leftovers
     chk.cov["rule"] = ("op files over 3 worker processes x 4 names x 16 handles: p_shm_new with sizes 1..3 pages (re-open smaller / larger / zero / equal), byte stores and loads at offsets biased to 0, size-1 and page borders, "
                        "lock/unlock, take_ownership, free, SIGKILL; after every op: reported size, first bytes and checksum through every live handle, /proc/<pid>/maps entries of the segment per process, "
                        "/dev/shm presence and size, lock value (drained by an observer%s), system calls made — compared with model and spec; crash: SIGKILL before/after every system call of new/free/lock/unlock (8 scenarios) "
                        "then new/take_ownership/free/new; EINTR n<=6 at every k; races: interleavings of two first-time p_shm_new replayed with gated system calls (quick: both windows + 100 sampled, thorough: all 330 + mirrored); distinct by op-file hash, non-trivial = more than one op; "
-                       "System V variant (harness/ipc_sysv.c, no model): the basic and recovery histories and random histories over 3 processes with SIGKILL of workers between calls, key files on tmpfs and on a file system that reuses inode numbers; "
-                       "every answer, segment size (shmctl), lock value (drained through the API), size/bytes/checksum through every live handle and the attachments of every process (/proc/self/maps) after every op compared with the spec column where the statement determines it"
+                       "System V variant (harness/ipc_sysv.c, model PV.Model.IPCSysV, theorems PV.Props.C07sysv): the basic and recovery histories and random histories over 3 processes with SIGKILL of workers between calls, key files on tmpfs and on a file system that reuses inode numbers; "
+                       "every answer, segment size (shmctl), lock value (drained through the API), size/bytes/checksum through every live handle and the attachments of every process (/proc/self/maps) after every op compared with the spec column where the statement determines it, and EVERY answer line (system calls with flags and results, observer views) with the System V model column (tmpfs histories, the recorded findings incl. the inode-reuse one, crash points of new/free, EINTR scripts)"
                        % (", cross-checked with sem_getvalue" if thorough else ""))
     chk.assumptions += ipc.ASSUMPTIONS
     return chk.finish()
